@@ -1,6 +1,6 @@
 """C03 — all string-producing derives agree on one canonical name per variant."""
 import itertools
-from vlib.defs import Item, Variant, Field, EM, ser, tos, aci, DISABLED
+from vlib.defs import VM, Item, Variant, Field, EM, ser, tos, aci, DISABLED
 from vlib.run import Corpus
 from vlib import gen as G
 from vlib import strings as S
@@ -90,6 +90,22 @@ def build_corpus(tier, rng):
     c = Corpus(ID)
     thorough = tier == "thorough"
     cands = [("systematic", it) for it in systematic(rng, thorough)]
+    # the LONGEST serialize is the longest VALUE, however the literals are written in the source (escapes, raw strings)
+    def sv(text, style=None):
+        m = ser(text)
+        m.style = style
+        return m
+    esc_sets = [[sv("ab", "uesc"), sv("abcd")], [sv("abcd"), sv("ab", "uesc")], [sv("\t"), sv("tab")], [sv("tab"), sv("\t")], [sv("k\0"), sv("kk0")],
+                [sv("\\\\"), sv("abc")], [sv('q"', "raw"), sv("w\\x")], [sv('q"q"'), sv('w"ww"', "raw")], [sv("é", "uesc"), sv("zz")],
+                [sv("x", "raw"), sv("yy", "uesc"), sv("zzz")], [sv("zzz", "raw"), sv("yy"), sv("x", "uesc")]]
+    for sty in (None, "snake_case"):
+        vs = []
+        for i, st in enumerate(esc_sets):
+            kind = ["unit", "tuple", "named"][i % 3]
+            v = Variant("Esc%d" % i, kind, [Field("u8")] if kind == "tuple" else ([Field("u8", "f")] if kind == "named" else []))
+            v.metas = [VM(m.kind, m.s[:-0 or None] + str(i), style=m.style) for m in st]
+            vs.append(v)
+        cands.append(("escapes", Item("E", vs, metas=[EM("sall", sty)] if sty else [])))
     from props import c01
     for i, it in enumerate(c01.nonascii()):
         if i % 3 == 1:
